@@ -638,6 +638,9 @@ func init() {
 // (also inside function literals).  A package whose functions keep no state between calls has none,
 // apart from the ones that install defaults.
 func (x *Extractor) genGlobalWrites() string {
+	if err := x.typecheck(); err != nil {
+		return header + "-- typecheck failed: " + err.Error() + "\n#check (APModel.Generated.typecheckFailed : Nat)\n"
+	}
 	pkgVar := func(e ast.Expr) *types.Var {
 		for {
 			switch v := e.(type) {
